@@ -45,7 +45,7 @@ func checkC12(c *Ctx) {
 	}
 	rangeRule(c, "C12.R5", packers, shiftObs,
 		"a shift count may reach the width of the shifted value, and the shift then yields 0: the byte it was to place in the lane is dropped", "variable shifts in the byte-to-lane packers", 4)
-	c.Decides("that a forged tag cannot be accepted through a narrow or unchecked comparison, that callers' overlapping buffers are not corrupted, that setting the padding byte cannot erase key bytes")
+	c.Decides("that a forged tag cannot be accepted through a narrow or unchecked comparison, that callers' overlapping buffers are not corrupted, that setting the padding byte cannot erase key bytes, that no variable shift in a byte-to-lane packer can drop a byte, that the key mask is derived from this call's key every time")
 	c.NotDecided("conformance of Kravatte-SANSE outputs with the specification for all keys and lengths (numerical statement)")
 
 	uw := P.Func("kravatte", "(*sanse).unwrap")
